@@ -82,6 +82,38 @@ def settings_tuple(s):
     return (s.compiler_version, opt, s.evm_version, s.experimental_codegen, s.enable_decimals, s.nonreentrancy_by_default)
 
 
+def spec_norm(src):
+    """what the front end may do to a text before tokenizing it: drop a leading BOM (neither tokenizer nor python's parser
+    count it) and let a lone CR end a line for the tokenizer as it does for python's parser -- both 1:1 in length after
+    the BOM, so that every offset into the normalised text is an offset into the file"""
+    return re.sub(r"\r(?!\n)", "\n", src[1:] if src[:1] == "\ufeff" else src)
+
+
+class _Stop(Exception):
+    pass
+
+
+def pre_parser_input(src):
+    """the text parse_to_ast really hands to PreParser.parse (None if it does not get that far)"""
+    import vyper.ast.pre_parser as P
+    from vyper.ast.parse import parse_to_ast
+    got = []
+    orig = P.PreParser.parse
+
+    def rec(self, code):
+        got.append(code)
+        raise _Stop()
+
+    P.PreParser.parse = rec
+    try:
+        parse_to_ast(src)
+    except BaseException:  # noqa
+        pass
+    finally:
+        P.PreParser.parse = orig
+    return got[0] if got else None
+
+
 def real_machine(tokens, is_interface=False):
     """run the real PreParser._parse on the given token list.  -> ("ok", dict) | ("user", cls, line, col, msg) |
     ("internal", cls, msg, frame)"""
@@ -425,7 +457,8 @@ def book_events(src):
     from vyper.ast.pre_parser import PreParser
     pp = PreParser(False)
     try:
-        pp.parse(src)
+        got = pre_parser_input(src)         # parse.py normalises the text first (BOM, lone CR)
+        pp.parse(got if got is not None else src)
         tree = ast.parse(pp.reformatted_code)
     except Exception:  # noqa
         return None
@@ -616,10 +649,10 @@ def literal_problems(src):
     try:
         mod = parse_to_ast(src)
         # token positions comparable with python's parser: it ends a line at a lone "\r", the tokenize module does not
-        tlist = list(source_tokens(re.sub(r"\r(?!\n)", "\n", src)))
+        tlist = list(source_tokens(spec_norm(src)))
     except Exception:  # noqa
         return None
-    plines = re.split(r"(?<=\n)|(?<=\r)(?!\n)", src)
+    plines = re.split(r"(?<=\n)", spec_norm(src))
     toks = {}
     for i, t in enumerate(tlist):   # python ast columns are utf-8 byte offsets, tokenizer columns are characters
         toks[(t.start[0], len(t.line[:t.start[1]].encode("utf-8")))] = i
@@ -653,7 +686,7 @@ def literal_problems(src):
         extra = sorted(set(have) - set(want))[:3]
         lost = sorted(set(want) - set(have))[:3]
         ty = (extra or lost or [("Int",)])[0][0]
-        if any(not t.line.lstrip("\ufeff").isascii() for t in tlist if t.type == pytok.NUMBER):
+        if any(not t.line.isascii() for t in tlist if t.type == pytok.NUMBER):
             ty = "non-ascii-line"       # python's ast counts UTF-8 bytes, parse.py slices characters
         probs.append((ty, f"numeric literal nodes {extra} have no NUMBER token of that value in the text; tokens {lost} "
                           f"have no node of that value"))
@@ -687,7 +720,7 @@ def literal_problems(src):
         except Exception as e:  # noqa: the text of the node is not even a literal
             ok = False
             text = f"{text!r} ({type(e).__name__})"
-        lab = "non-ascii-line" if n.lineno <= len(plines) and not plines[n.lineno - 1].lstrip("\ufeff").isascii() else ty
+        lab = "non-ascii-line" if n.lineno <= len(plines) and not plines[n.lineno - 1].isascii() else ty
         if not ok:
             probs.append((lab, f"{ty} node at {n.lineno}:{n.col_offset} has value {n.value!r} but its source text is {text!r}"))
         elif tok is None or not (text == own or (ty in ("Str", "Bytes") and text.startswith(tok.string))):
@@ -708,8 +741,7 @@ def span_problems(src):
         rt = source_tokens(pp.reformatted_code)
     except Exception:  # noqa
         return None
-    # the tokenize module's lines and columns: a lone "\\r" does not end a line, a leading BOM is not counted
-    lines = re.split(r"(?<=\n)", src[1:] if src[:1] == "\ufeff" else src)
+    lines = re.split(r"(?<=\n)", src[1:] if src[:1] == "\ufeff" else src)   # the tokenize module's lines and columns
     vy_kw = set(P.VYPER_CLASS_TYPES) | set(P.CUSTOM_STATEMENT_TYPES) | set(P.CUSTOM_EXPRESSION_TYPES)
     probs, sig = [], []
     for r in rt:
@@ -817,6 +849,16 @@ def part_preparse(ctx):
                 failing(f"C20:valid-text-rejected:{o['cls']}:{o['frame']}",
                         f"a text that is valid by construction is rejected with {o['cls']}: {o['msg']}",
                         {"source": src, "exception": o["cls"], "message": o["msg"], "frame": o["frame"], "origin": name})
+        # ---- the text the pre-parser is really given (parse.py normalises first); must be the allowed normalisation
+        pp_texts = []
+        for name, src in texts:
+            got = pre_parser_input(src)
+            if got is not None and got != spec_norm(src):
+                i = next((k for k, (a, c) in enumerate(zip(got, spec_norm(src))) if a != c), min(len(got), len(spec_norm(src))))
+                failing("C20:normalisation", "parse_to_ast hands the pre-parser a text that is not the source up to BOM / lone CR "
+                        f"(first difference at offset {i}: {got[i:i + 12]!r} vs {spec_norm(src)[i:i + 12]!r})",
+                        {"source": src, "origin": name, "offset": i})
+            pp_texts.append((name, got if got is not None else src))
         # ---- AST-level tie: literal nodes carry their own text and value
         n_lit_texts = n_lit_nodes_bad = 0
         for name, src in texts:
@@ -833,7 +875,7 @@ def part_preparse(ctx):
         # ---- adjusted_span_is_original_span on the real output (Search), and its layout model / hypothesis (tie)
         n_span_texts = n_span_tokens = 0
         span_cases = []
-        for name, src in texts:
+        for name, src in pp_texts:
             sp = span_problems(src)
             if sp is None:
                 continue
@@ -853,7 +895,7 @@ def part_preparse(ctx):
         # ---- (3) tie on token streams
         cases = []
         n_src = 0
-        for name, src in texts:
+        for name, src in pp_texts + [(n + "/raw", s) for (n, s), (_, p) in zip(texts, pp_texts) if s != p]:
             try:
                 toks = [tok4(t) for t in source_tokens(src)]
             except Exception as e:  # noqa: tokenizer errors are turned into SyntaxException by PreParser.parse
@@ -863,6 +905,13 @@ def part_preparse(ctx):
                 continue
             n_src += 1
             cases.append((name, toks, name.startswith("c18/") and name.endswith(".vyi")))
+        if ctx.tier == "quick" and len(cases) > 80:     # budget: every replay, then a seeded sample of the other texts
+            fixed = {n for n, _ in REPLAYS}
+            keep = [c for c in cases if c[0].split("/raw")[0] in fixed]
+            rest = [c for c in cases if c[0].split("/raw")[0] not in fixed]
+            ctx.rng("c20p-cap").shuffle(rest)
+            cases = keep + rest[:max(0, 80 - len(keep))]
+            n_src = len(cases)
         n_streams = 90 if ctx.tier == "quick" else 1500
         for kind, toks in gen_streams(ctx, n_streams):
             cases.append((kind, toks, False))
